@@ -359,6 +359,10 @@ pub enum BidEntry {
 pub struct Book {
     pub asks: Vec<AskEntry>,
     pub bids: Vec<BidEntry>,
+    /// storage keys, parallel to `asks` / `bids` (an order is addressed by its key, which a defect may
+    /// let drift from the order's own `id` field)
+    pub ask_keys: Vec<String>,
+    pub bid_keys: Vec<String>,
 }
 
 fn raw_value(bytes: &[u8]) -> Value {
@@ -371,6 +375,7 @@ impl Book {
     pub fn read(storage: &dyn Storage) -> Book {
         let mut book = Book::default();
         for (k, v) in scan_namespace(storage, "ask") {
+            book.ask_keys.push(String::from_utf8_lossy(&k).to_string());
             match from_slice::<AskOrderV1>(&v) {
                 Ok(a) => book.asks.push(AskEntry::V1(a)),
                 Err(_) => book.asks.push(AskEntry::Raw {
@@ -380,6 +385,7 @@ impl Book {
             }
         }
         for (k, v) in scan_namespace(storage, "bid") {
+            book.bid_keys.push(String::from_utf8_lossy(&k).to_string());
             if let Ok(b) = from_slice::<BidOrderV3>(&v) {
                 book.bids.push(BidEntry::V3(b));
             } else if let Ok(b) = from_slice::<BidOrderV2>(&v) {
@@ -430,6 +436,37 @@ impl Book {
             AskEntry::V1(a) => Some(a),
             _ => None,
         })
+    }
+
+    /// current-format orders as a requester sees them: named by their storage key
+    pub fn v1_asks_by_key(&self) -> Vec<AskOrderV1> {
+        self.asks
+            .iter()
+            .zip(self.ask_keys.iter())
+            .filter_map(|(a, k)| match a {
+                AskEntry::V1(a) => {
+                    let mut a = a.clone();
+                    a.id = k.clone();
+                    Some(a)
+                }
+                _ => None,
+            })
+            .collect()
+    }
+
+    pub fn v3_bids_by_key(&self) -> Vec<BidOrderV3> {
+        self.bids
+            .iter()
+            .zip(self.bid_keys.iter())
+            .filter_map(|(b, k)| match b {
+                BidEntry::V3(b) => {
+                    let mut b = b.clone();
+                    b.id = k.clone();
+                    Some(b)
+                }
+                _ => None,
+            })
+            .collect()
     }
 
     pub fn v3_bids(&self) -> impl Iterator<Item = &BidOrderV3> {
